@@ -113,6 +113,59 @@ theorem printf_matches_iso_witness_c_nul :
     printf "%c".toList [.int 0] = .done [NUL] 1 := by
   refine ⟨?_, ?_, ?_⟩ <;> decide
 
+/-! ## which formats ISO defines: the domain of `printf_matches_iso` -/
+
+/-- every format of the grammar `( text | % flags* width? precision? length?
+conversion )*` (Grammar.lean: generative, a directive is a record rendered to
+text) whose options are ones ISO defines for the conversion and whose argument
+list supplies the right types is in the domain of `isoFormat` -/
+theorem iso_defined_of_grammar (pfmt : Nat → List Char) (fmt : List Char) (args : List Arg)
+    (h : IsoDefined fmt args) : (isoFormat pfmt fmt args).isSome := by
+  obtain ⟨segs, hr, ha⟩ := h
+  subst hr
+  exact grammar_defined pfmt segs args ha _ (Nat.le_refl _)
+
+/-- hence, for every such format and argument list, `__printf` produces the ISO
+output and returns its length: the headline statement without a hypothesis
+about `isoFormat` -/
+theorem printf_iso_on_grammar (fmt : List Char) (args : List Arg) (h : IsoDefined fmt args) :
+    ∃ out, isoFormat igrisPtr fmt args = some out ∧ printf fmt args = .done out out.length := by
+  have hs := iso_defined_of_grammar igrisPtr fmt args h
+  cases ho : isoFormat igrisPtr fmt args with
+  | none => rw [ho] at hs; cases hs
+  | some out => exact ⟨out, rfl, printf_matches_iso fmt args out ho⟩
+
+/-! ## where the model's `Int` arithmetic is the code's `int` arithmetic -/
+
+/-- `if (width < 0) { …; width = -width; }` is computed in `int`: for every `*`
+argument except INT_MIN the 32-bit negation is the mathematical one the model
+(and ISO) uses -/
+theorem star_width_negation_exact (v : BitVec 32) (h : v ≠ BitVec.intMin 32) : (-v).toInt = -v.toInt :=
+  BitVec.toInt_neg_of_ne_intMin h
+
+/-- … and for INT_MIN it is not: the C expression overflows (undefined; two's
+complement wrap leaves the width negative), while the model continues with
+2^31 — the inputs `*` = INT_MIN are outside what the model says about the code
+(recorded finding C06-star-width-int-min) -/
+theorem star_width_int_min_witness :
+    (-(BitVec.intMin 32)).toInt = -2147483648 ∧ -(BitVec.intMin 32).toInt = 2147483648 ∧
+    getWidth ['*'] [.int (BitVec.intMin 32)] {} = some (2147483648, [], [], { left := true }) := by
+  refine ⟨?_, ?_, ?_⟩ <;> decide
+
+/-- a literal width or precision of at most 9 digits is below 10^9 < 2^31:
+`atoi` does not overflow and the model's value is the C value -/
+theorem literal_number_fits (s : List Char) (h : (s.takeWhile Char.isDigit).length ≤ 9) :
+    0 ≤ atoiDigits s 0 ∧ atoiDigits s 0 < 2 ^ 31 := by
+  obtain ⟨h0, h1⟩ := atoiDigits_lt s 0 9 (by omega) h
+  refine ⟨h0, ?_⟩
+  have : ((0 : Int) + 1) * 10 ^ 9 < 2 ^ 31 := by decide
+  omega
+
+/-- beyond: ten digits can exceed INT_MAX (C: `atoi` overflow, undefined) -/
+theorem literal_number_overflow_witness :
+    atoi "2147483647".toList = 2 ^ 31 - 1 ∧ atoi "2147483648".toList = 2 ^ 31 := by
+  constructor <;> decide
+
 /-! ## %p: 0x followed by hex digits that parse back to the pointer -/
 
 /-- igris' rendering of a pointer (the `pfmt` with which `printf_matches_iso_partial`
@@ -348,6 +401,19 @@ example : ((({ prec := true } : Ops).chr = false ∧
 example : ((({ chr := true } : Ops).chr = false ∧
     (NUL ∈ [NUL, NUL] ∨ (({ chr := true } : Ops).prec = true ∧ 2 ≤ [NUL, NUL].length))) ∨
     (({ chr := true } : Ops).chr = true ∧ [NUL, NUL] ≠ [])) := by decide
+
+-- IsoDefined: `a=%-*.3lld|%+05d|%.2s|%#x` as pieces, with its arguments
+example : IsoDefined "a=%-*.3lld|%+05d|%.2s|%#x".toList
+    [.int 8, .long (BitVec.ofInt 64 (-42)), .int 7, .str ['x', 'y', 'z'], .int 255] :=
+  ⟨[.text ['a', '='],
+    .dir { flags := ['-'], width := .star, prec := .lit ['3'], len := .ll, conv := 'd' }, .text ['|'],
+    .dir { flags := ['+', '0'], width := .lit ['5'], prec := .none, len := .none, conv := 'd' }, .text ['|'],
+    .dir { flags := [], width := .none, prec := .lit ['2'], len := .none, conv := 's' }, .text ['|'],
+    .dir { flags := ['#'], width := .none, prec := .none, len := .none, conv := 'x' }], by decide, by decide⟩
+
+-- star_width_negation_exact / literal_number_fits
+example : (BitVec.ofInt 32 (-5)) ≠ BitVec.intMin 32 := by decide
+example : (("123456789|".toList).takeWhile Char.isDigit).length ≤ 9 := by decide
 
 -- vsnprintf_spec / snprintf_matches_iso: a truncating call
 example : printf "%s=%d".toList [.str ['a', 'b', NUL], .int 7] = .done "ab=7".toList 4 := by decide
